@@ -533,7 +533,7 @@ pub fn prop() -> Prop<ConcCase> {
             "a watchdog expiry counts as a violation only as 'hang' of threads inside store operations (20 s for at most 120 tiny operations)",
         ],
         needs_shim: true,
-        budget: |t| t.pick(24000, 400000),
+        budget: |t| t.pick(72000, 400000),
         shards: |_| 16,
         strategy,
         exec,
